@@ -38,6 +38,25 @@ CHECKS["C15"] = {
     "technique": "static analysis: path conditions of raise statements from the CFG, propositional/threshold decision of guard formulas, string-cursor lower bounds for loop progress",
 }
 
+def _mk(pid, text, tech, note_extra=""):
+    CHECKS[pid] = {
+        "level": "other",
+        "text": _OTHER + ". " + text,
+        "design_ref": f"DESIGN.md §2 {pid}",
+        "note": _NOTE + note_extra,
+        "technique": "static analysis: " + tech,
+    }
+
+
+_mk("C05", "C05 (structural part only): single atom source, exactly one bond / edge / combination per attachment, `other` always a fresh single-node fragment (tree by induction), accessors work on copies. Sanitisation, hydrogen counts and mass additivity are NOT decided.",
+    "who-may-call over the call graph, CFG exactly-once (dominates all exits, not in a loop), provenance of call arguments")
+_mk("C06", "C06 (ordering / pairing part): element order and prefix threading, base guard dominates every attachment, start guards' meaning, reserve/restore pairing of the right-terminal descriptor, capping loop shape and pool, at least one unit, meaning of fully_generated. Termination is NOT decided.",
+    "CFG dominance / post-domination, acquire-release pairing with a path-sensitive flag, guard-formula equivalence")
+_mk("C07", "C07: one draw per object (outside loops, dominating the growth loop, caller's rng, kept local), do-while shape, the stop test normalised to the linear form M(cur) − M(start) − target > 0, measured molecule is the un-finalised one, finalisation on a deep copy, finalised value returned.",
+    "role-located loop, linear normal form of the exit comparison, reaching definitions of the loop-carried molecule, CFG dominance")
+_mk("C08", "C08: every rng.choice on the generation path passes p = vector / its own sum, candidates and weights gathered in lockstep, equal-weights rule guard, the 7 (phase, pool, filter) decision points, transition-list decoding, terminal transfer, weight == Σ transitions at every store. Molecule probabilities are NOT decided.",
+    "provenance of the p= argument, def-chain inspection, classification of pick sites by pool/filter provenance, sibling-store pairing")
+
 NOT_APPLICABLE = {}
 for _i in range(1, 21):
     _p = f"C{_i:02d}"
